@@ -16,8 +16,10 @@ import (
 	"strings"
 	"time"
 
+	"github.com/restic/restic/internal/bloblru"
 	"github.com/restic/restic/internal/checker"
 	"github.com/restic/restic/internal/data"
+	"github.com/restic/restic/internal/fuse"
 	"github.com/restic/restic/internal/global"
 	"github.com/restic/restic/internal/repository"
 	"github.com/restic/restic/internal/repository/index"
@@ -83,6 +85,7 @@ type c03Repo struct {
 	snaps          []c03Snap
 	keys           []string
 	plain          map[restic.BlobHandle][]byte
+	reads          [][]restic.ID // synthetic multi-blob files read through the fuse file code
 	pn, in, sn, bn *c03Names
 }
 
@@ -310,6 +313,35 @@ func c03Build(c *vctx, rng *vrng, num int) (*c03Repo, error) {
 		r.packs = append(r.packs, *p)
 	}
 	sort.Slice(r.packs, func(i, j int) bool { return bytes.Compare(r.packs[i].id[:], r.packs[j].id[:]) < 0 })
+	// synthetic files for mounted-file reads: the data blobs of each pack in stored and in reverse order
+	for _, p := range r.packs {
+		var ds []restic.ID
+		for _, b := range p.blobs {
+			if b.Type != restic.DataBlob {
+				continue
+			}
+			h := restic.BlobHandle{Type: restic.DataBlob, ID: b.ID}
+			if _, ok := r.plain[h]; !ok {
+				buf, err := repo.LoadBlob(ctx, h, nil)
+				if err != nil {
+					return nil, err
+				}
+				r.plain[h] = append([]byte(nil), buf...)
+			}
+			ds = append(ds, b.ID)
+		}
+		if len(ds) >= 2 {
+			if len(ds) > 4 {
+				k := rng.intn(len(ds) - 3)
+				ds = ds[k : k+4]
+			}
+			rev := make([]restic.ID, len(ds))
+			for i := range ds {
+				rev[len(ds)-1-i] = ds[i]
+			}
+			r.reads = append(r.reads, ds, rev)
+		}
+	}
 	if len(pm) != len(sizes) {
 		return nil, fmt.Errorf("packs in index %d, listed %d", len(pm), len(sizes))
 	}
@@ -533,7 +565,7 @@ func (r *c03Repo) observe(c *vctx, kind string, sites []c03Site, num int) {
 	lap("check")
 	// (b) error classes from the checker stages
 	classes := map[int]bool{}
-	var loads []string
+	var loads, reads []string
 	needed := map[restic.BlobHandle]bool{}
 	var order []restic.BlobHandle
 	for _, s := range r.snaps {
@@ -559,6 +591,13 @@ func (r *c03Repo) observe(c *vctx, kind string, sites []c03Site, num int) {
 			classes[0] = true
 			for _, h := range order {
 				loads = append(loads, fmt.Sprintf("(%d, 1)", r.bn.get(h.ID.String())))
+			}
+			for _, ids := range r.reads {
+				var bl []string
+				for _, id := range ids {
+					bl = append(bl, fmt.Sprint(r.bn.get(id.String())))
+				}
+				reads = append(reads, fmt.Sprintf("(%s, 1)", coqList(bl)))
 			}
 		} else {
 			chkr := checker.New(repo, false)
@@ -618,6 +657,36 @@ func (r *c03Repo) observe(c *vctx, kind string, sites []c03Site, num int) {
 				}
 				loads = append(loads, fmt.Sprintf("(%d, %d)", r.bn.get(h.ID.String()), o))
 			}
+			// (c') reads of synthetic multi-blob files through fuse file.Open / openFile.Read
+			for _, ids := range r.reads {
+				var orig []byte
+				var bl []string
+				for _, id := range ids {
+					orig = append(orig, r.plain[restic.BlobHandle{Type: restic.DataBlob, ID: id}]...)
+					bl = append(bl, fmt.Sprint(r.bn.get(id.String())))
+				}
+				o := 1
+				if lerr == nil {
+					node := &data.Node{Name: "synthetic", Type: data.NodeTypeFile, Content: ids, Size: uint64(len(orig))}
+					cache := bloblru.New(1 << 20)
+					if f, err := fuse.VerifC03Open(ctx, repo2, cache, node); err == nil {
+						first := len(r.plain[restic.BlobHandle{Type: restic.DataBlob, ID: ids[0]}])
+						o = 0
+						for _, rq := range [][2]int{{0, len(orig)}, {first / 2, len(orig) - first/2}, {0, first + 1}} {
+							got, err := f.VerifC03Read(ctx, int64(rq[0]), rq[1])
+							switch {
+							case err != nil:
+								if o == 0 {
+									o = 1
+								}
+							case !bytes.Equal(got, orig[rq[0]:rq[0]+rq[1]]):
+								o = 2
+							}
+						}
+					}
+				}
+				reads = append(reads, fmt.Sprintf("(%s, %d)", coqList(bl), o))
+			}
 		}
 		return nil
 	})
@@ -643,13 +712,13 @@ func (r *c03Repo) observe(c *vctx, kind string, sites []c03Site, num int) {
 			cl = append(cl, fmt.Sprint(k))
 		}
 	}
-	term := fmt.Sprintf("mk %s %s %s %s %s %s", r.name, r.tamperTerm(sites), coqBool(cerr != nil), coqList(cl), coqList(loads), coqList(restores))
+	term := fmt.Sprintf("mk %s %s %s %s %s %s %s", r.name, r.tamperTerm(sites), coqBool(cerr != nil), coqList(cl), coqList(loads), coqList(restores), coqList(reads))
 	var hs []string
 	for _, s := range sites {
 		hs = append(hs, fmt.Sprintf("%s:%s@%d(%s)", s.kind, s.op, s.pos, filepath.Base(s.path)[:min(8, len(filepath.Base(s.path)))]))
 	}
 	nfail := strings.Count(strings.Join(loads, ""), ", 1)")
-	human := fmt.Sprintf("%s %s -> check-failed=%v classes=%v loads-failed=%d/%d %s", r.name, strings.Join(hs, "+"), cerr != nil, cl, nfail, len(loads), strings.Join(hr, " "))
+	human := fmt.Sprintf("%s %s -> check-failed=%v classes=%v loads-failed=%d/%d reads=%v %s", r.name, strings.Join(hs, "+"), cerr != nil, cl, nfail, len(loads), reads, strings.Join(hr, " "))
 	if len(sites) > 0 {
 		c.Hist("op=" + sites[0].op)
 	}
